@@ -22,7 +22,7 @@ def mc_cfg(role, family, depth, hbmin=1, hbmax=3, hbcfg=2, closems=1000, startse
 
 
 def act(a, **kw):
-    d = dict(a=a, seq=0, sq="ok", integ="none", hb=0, enc="0", cred=True, id=[], b=0, e=0, ms=0)
+    d = dict(a=a, seq=0, sq="ok", integ="none", hb=0, enc="0", cred=True, id=[], b=0, e=0, ms=0, mid="", midSeq=0)
     d.update(kw)
     return d
 
@@ -59,7 +59,7 @@ def gen_timing(rnd, n_per):
             for k in range(n_per):
                 p = Peer()
                 st = logged_on_prefix(role, N, p)
-                kind = rnd.choice(["idle", "sendnear", "inboundnear", "silence", "answer", "steady", "burst", "stop", "logoutthenidle", "relogon"])
+                kind = rnd.choice(["idle", "sendnear", "inboundnear", "silence", "answer", "steady", "burst", "stop", "logoutthenidle", "relogon", "relogonsteady", "midcall"])
                 if kind == "idle":
                     st += [act("advance", ms=rnd.choice([T - 1, T, T + T // 10, 3 * T, 7 * T + 13]))]
                 elif kind == "sendnear":
@@ -96,6 +96,18 @@ def gen_timing(rnd, n_per):
                 elif kind == "relogon":
                     st += [act("advance", ms=rnd.choice([T // 2, T])), p("logout"), act("advance", ms=rnd.choice([1, 300, T, 2 * T])),
                            p("logon", hb=N), act("advance", ms=rnd.choice([T + T // 10 + 1, 3 * T]))]
+                elif kind == "relogonsteady":
+                    # a second logon on the same session, then a live peer (period <= N) for many periods: never probed
+                    st += [act("advance", ms=rnd.choice([T // 2, T])), p("logout"), act("advance", ms=rnd.choice([1, 300, T])), p("logon", hb=N)]
+                    for _ in range(rnd.randint(4, 12)):
+                        st += [act("advance", ms=rnd.choice([T, T - 1, T // 2, max(1, T // 3)])), p(rnd.choice(["hbt", "app", "testreq"]), id=[66])]
+                elif kind == "midcall":
+                    # the peer's message is delivered while a local call's own message is still inside the send path
+                    st += [act("advance", ms=rnd.choice([1, T // 2]))]
+                    for _ in range(rnd.randint(1, 3)):
+                        p.n += 1
+                        st += [act(rnd.choice(["send", "llogout", "send"]), mid=rnd.choice(["logout", "hbt", "testreq", "logout"]), midSeq=p.n, hb=N)]
+                        st += [p("hbt"), p("logon", hb=N)]
                 out.append(dict(id="tm-%s-%d-%s-%d" % (role[0], N, kind, k), cfg=base_cfg, steps=st))
     return out
 
@@ -183,6 +195,31 @@ def gen_prelogon(rnd, n):
             else:
                 st.append(p(kd, integ=integ if kd in ("hbt", "logout") else "none", sq=sq if kd in ("hbt", "logout") else "ok"))
         out.append(dict(id="pre-%d" % k, cfg=cfg(role, startseq=start), steps=st))
+    # every kind of refused Logon, then both timer deadlines pass, then more inbound traffic: still nothing but A / 5 / 3
+    j = 0
+    for which in ("hb-low", "hb-high", "enc", "cred", "checksum", "bodylength", "nonnum", "seqnonnum"):
+        for hb in (1, 30):
+            for start in (0, 4):
+                p = Peer()
+                st = [act("run")]
+                kw = dict(hb=hb)
+                if which == "hb-low":
+                    kw["hb"] = 0
+                elif which == "hb-high":
+                    kw["hb"] = 61
+                elif which == "enc":
+                    kw["enc"] = "5"
+                elif which == "cred":
+                    kw["cred"] = False
+                elif which == "seqnonnum":
+                    kw["sq"] = "nonnum"
+                else:
+                    kw["integ"] = which
+                st.append(p("logon", **kw))
+                st += [act("advance", ms=hb * 1000 + hb * 100 + 1), act("advance", ms=(hb + 2) * 1000), p("hbt"), p("testreq", id=[65]),
+                       p("resend", b=1, e=0), act("advance", ms=(hb + 2) * 2200), p("app"), p("resend", b=1, e=start)]
+                out.append(dict(id="pre-refused-%d-%s" % (j, which), cfg=cfg("acceptor", startseq=start), steps=st))
+                j += 1
     return out
 
 
@@ -364,6 +401,12 @@ def check(prop, tier, seed):
     scns += extra
     traces = run_driver(run, binp, scns, "pool")
     run.traces = len(scns)
+    # two real sessions talking to each other (each side's log is an ordinary scenario trace)
+    duplex = [dict(id="dx-%d" % i, hb=pool_rnd.choice([1, 2, 5, 30]), seed=pool_rnd.randint(1, 10**6), steps=pool_rnd.choice([30, 80, 200]),
+                   closeMs=pool_rnd.choice([0, 500, 2000]), dropPct=pool_rnd.choice([0, 0, 10])) for i in range(40 if quick else 1500)]
+    traces += run_driver(run, binp, duplex, "duplex", testname="TestDuplex")
+    run.traces += 2 * len(duplex)
+    run.extra["duplex_runs_two_real_sessions"] = len(duplex)
     rejects = validate(run, traces)
     mine = [r for r in rejects if r[0] == prop]
     others = {}
